@@ -8,7 +8,11 @@ package main
 //
 //   bridges : comma list of <fp40hex>=<url>   ("-" : keep only the built-in default bridge)
 //   events  : comma list, times in ms from scenario start
-//     P<k>:<sid>:<nat>:<type>:<clients>@<t>      proxy poll through the /proxy handler
+//     P<k>:<sid>:<nat>:<type>:<clients>@<t>      proxy poll through the /proxy handler (body from the stock encoder)
+//     P<k>:<sid>:<nat>:<type>:<clients>:<ver>@<t>  the same with a hand-built body carrying Version <ver> ("1.0", "1", "1.10" ...);
+//                                                a trailing "!" leaves the AcceptedRelayPattern field out (proxies older than
+//                                                the relay-pattern extension), a trailing "~" leaves the NAT field out when the
+//                                                NAT is empty. The same <sid> may occur in several P events (a repeated poll).
 //     C<k>:<nat>:<fp|->:<offer>:<mode>@<t>       client poll; mode v=/client versioned, l=/client legacy, a=/amp/client
 //     A<k>:<sid>:<answer>@<t>                    proxy answer at absolute time t
 //     A<k>:<sid>:<answer>@P<j>+<dt>              proxy answer dt ms after poll j returned (only if it got an offer)
@@ -225,8 +229,56 @@ func vbDoClientW(i *IPC, nat, fp, offer, mode string, bar *vbBarrier) string {
 	return "err:mode"
 }
 
-func vbDoPoll(i *IPC, sid, nat, ptype string, clients int) (string, bool) {
-	b, err := messages.EncodeProxyPollRequestWithRelayPrefix(sid, ptype, nat, clients, "")
+// vbPollBody: the /proxy request body. ver == "": what EncodeProxyPollRequestWithRelayPrefix produces (the current
+// version); otherwise the JSON is built here, field for field, with the given version string.
+func vbPollBody(sid, nat, ptype string, clients int, ver string) ([]byte, error) {
+	if ver == "" {
+		return messages.EncodeProxyPollRequestWithRelayPrefix(sid, ptype, nat, clients, "")
+	}
+	noPattern := strings.Contains(ver, "!")
+	noNat := strings.Contains(ver, "~") && nat == ""
+	ver = strings.NewReplacer("!", "", "~", "").Replace(ver)
+	m := []struct {
+		k string
+		v interface{}
+	}{{"Sid", sid}, {"Version", ver}, {"Type", ptype}}
+	if !noNat {
+		m = append(m, struct {
+			k string
+			v interface{}
+		}{"NAT", nat})
+	}
+	m = append(m, struct {
+		k string
+		v interface{}
+	}{"Clients", clients})
+	if !noPattern {
+		m = append(m, struct {
+			k string
+			v interface{}
+		}{"AcceptedRelayPattern", ""})
+	}
+	var sb bytes.Buffer
+	sb.WriteByte('{')
+	for n, kv := range m {
+		if n > 0 {
+			sb.WriteByte(',')
+		}
+		kb, _ := json.Marshal(kv.k)
+		vb, err := json.Marshal(kv.v)
+		if err != nil {
+			return nil, err
+		}
+		sb.Write(kb)
+		sb.WriteByte(':')
+		sb.Write(vb)
+	}
+	sb.WriteByte('}')
+	return sb.Bytes(), nil
+}
+
+func vbDoPoll(i *IPC, sid, nat, ptype string, clients int, ver string) (string, bool) {
+	b, err := vbPollBody(sid, nat, ptype, clients, ver)
 	if err != nil {
 		return "err:encode", false
 	}
@@ -375,11 +427,34 @@ func vbRunScenario(args []string) string {
 		defer stMu.Unlock()
 		return deliveredOffers[offer]
 	}
-	registered := func(sid string) bool {
+	// "registered" is per poll EVENT: the id map holds, under the event's session id, a record other than the one it
+	// held when the event was launched (nil for a fresh id) - a repeated poll under an id that is still registered
+	// counts as registered once ITS record is in the map. If the implementation never files a second record for a
+	// repeated id the gate gives up after its deadline.
+	prevRec := map[string]*Snowflake{}
+	launched := map[string]bool{}
+	current := func(sid string) *Snowflake {
 		ctx.snowflakeLock.Lock()
-		_, ok := ctx.idToSnowflake[sid]
+		s := ctx.idToSnowflake[sid]
 		ctx.snowflakeLock.Unlock()
-		return ok
+		return s
+	}
+	noteLaunch := func(key, sid string) {
+		cur := current(sid)
+		stMu.Lock()
+		prevRec[key] = cur
+		launched[key] = true
+		stMu.Unlock()
+	}
+	registered := func(key, sid string) bool {
+		stMu.Lock()
+		prev, ok := prevRec[key], launched[key]
+		stMu.Unlock()
+		if !ok {
+			return false
+		}
+		cur := current(sid)
+		return cur != nil && cur != prev
 	}
 	gate := func(e vbEvent) {
 		if !sequenced || e.isRel {
@@ -396,7 +471,7 @@ func vbRunScenario(args []string) string {
 				ok := false
 				switch p.kind {
 				case 'P':
-					ok = st.returned || (!st.arrived.IsZero() && registered(p.f[0]))
+					ok = st.returned || (!st.arrived.IsZero() && registered(key, p.f[0]))
 					if ok && p.at+10000+100 <= e.at && !st.returned {
 						// its 10 s are over: it must have expired or been matched (then it has returned too)
 						ok = false
@@ -453,11 +528,16 @@ func vbRunScenario(args []string) string {
 			switch e.kind {
 			case 'P':
 				cl, _ := strconv.Atoi(e.f[3])
+				ver := ""
+				if len(e.f) > 4 {
+					ver = e.f[4]
+				}
+				noteLaunch(key, e.f[0])
 				stamp("t"+key, 0, time.Now(), start)
 				stop := make(chan struct{})
 				go func() {
 					for {
-						if registered(e.f[0]) {
+						if registered(key, e.f[0]) {
 							stamp("t"+key, 1, time.Now(), start)
 							return
 						}
@@ -468,7 +548,7 @@ func vbRunScenario(args []string) string {
 						}
 					}
 				}()
-				res, got := vbDoPoll(i, e.f[0], e.f[1], e.f[2], cl)
+				res, got := vbDoPoll(i, e.f[0], e.f[1], e.f[2], cl, ver)
 				close(stop)
 				stamp("t"+key, 2, time.Now(), start)
 				set(key, res)
